@@ -195,6 +195,9 @@ func (s *State) assume(t *Term) {
 // heap returns the current term of the named heap, creating the entry
 // symbol on first use (entry heaps are shared through Exec.heap0).
 func (x *Exec) heap(st *State, name string, sort Sort) *Term {
+	if x.heapTrace != nil {
+		x.heapTrace[name] = true
+	}
 	if h, ok := st.heaps[name]; ok {
 		return h
 	}
@@ -289,6 +292,13 @@ func (x *Exec) mergeStates(a, b *State) *State {
 		ha := x.heap(a, k, x.heapSorts[k])
 		hb := x.heap(b, k, x.heapSorts[k])
 		m.heaps[k] = pick(k, ha, hb)
+		if mh := m.heaps[k]; mh.Op == "store" && mh != ha && mh != hb {
+			// the choice was pushed into a store: also state it at the
+			// level of whole heaps, so that spec functions applied to
+			// whole arrays are seen to agree on the branch that did
+			// not write (no extensionality reasoning needed).
+			m.pc = append(m.pc, Implies(ga, Eq(mh, ha)), Implies(Not(ga), Eq(mh, hb)))
+		}
 	}
 	if cp == len(a.chain) && cp == len(b.chain) && a.allocOff == b.allocOff {
 		m.chain, m.allocOff, m.alloc = a.chain, a.allocOff, a.alloc
